@@ -13,7 +13,7 @@
 (***************************************************************************)
 EXTENDS TraceBase, Projective, Mul, Sec1
 
-VARIABLES l, bad, cnt,
+VARIABLES tl, tBad, tCnt,
           tblBase, tblAcc,      \* C05: <<i, enc(256^i G)>> and enc((j)*256^i G) of the row being walked ("" before a row)
           chain                 \* C03: abstract accumulator of the running operation chain, as an uncompressed encoding
 
@@ -247,27 +247,27 @@ StatefulVerdict(ev) ==
                        [] ev.op = "mixed" -> PAdd(acc, b)
          IN << (Has(ev, "q") => OperandOK(ev.q)) /\ RawOK(ev.out, want), {"chain_step"}, tblBase, tblAcc, EncUncompressedH(want) >>
 
-Init == /\ l = 1 /\ bad = 0 /\ cnt = [k \in Classes \cup {"_any"} |-> 0]
+Init == /\ tl = 1 /\ tBad = 0 /\ tCnt = [k \in Classes \cup {"_any"} |-> 0]
         /\ tblBase = <<-1, "00">> /\ tblAcc = "00" /\ chain = "00"
 
 Step ==
-  /\ l <= NLog
-  /\ LET ev == Log[l] IN
+  /\ tl <= NLog
+  /\ LET ev == Log[tl] IN
      IF IsStateful(ev)
      THEN LET v == StatefulVerdict(ev) IN
-          /\ bad' = IF v[1] THEN bad ELSE bad + 1
-          /\ (IF v[1] THEN TRUE ELSE Mismatch(l, ev))
-          /\ cnt' = BumpAll(cnt, v[2])
+          /\ tBad' = IF v[1] THEN tBad ELSE tBad + 1
+          /\ (IF v[1] THEN TRUE ELSE Mismatch(tl, ev))
+          /\ tCnt' = BumpAll(tCnt, v[2])
           /\ tblBase' = v[3] /\ tblAcc' = v[4] /\ chain' = v[5]
      ELSE LET v == Verdict(ev) IN
-          /\ bad' = IF v[1] THEN bad ELSE bad + 1
-          /\ (IF v[1] THEN TRUE ELSE Mismatch(l, ev))
-          /\ cnt' = BumpAll(cnt, v[2])
+          /\ tBad' = IF v[1] THEN tBad ELSE tBad + 1
+          /\ (IF v[1] THEN TRUE ELSE Mismatch(tl, ev))
+          /\ tCnt' = BumpAll(tCnt, v[2])
           /\ UNCHANGED <<tblBase, tblAcc, chain>>
-  /\ l' = l + 1
+  /\ tl' = tl + 1
 
-Finish == l = NLog + 1 /\ Done(l, bad, cnt) /\ l' = l + 1 /\ UNCHANGED <<bad, cnt, tblBase, tblAcc, chain>>
+Finish == tl = NLog + 1 /\ Done(tl, tBad, tCnt) /\ tl' = tl + 1 /\ UNCHANGED <<tBad, tCnt, tblBase, tblAcc, chain>>
 
 Next == Step \/ Finish
-Spec == Init /\ [][Next]_<<l, bad, cnt, tblBase, tblAcc, chain>>
+Spec == Init /\ [][Next]_<<tl, tBad, tCnt, tblBase, tblAcc, chain>>
 =============================================================================
